@@ -140,6 +140,8 @@ pub struct Online {
     purge_seen: HashMap<(u32, u32), u64>,
     /// index -> command as first applied anywhere (the agreed applied sequence)
     applied_cmds: BTreeMap<u64, d_engine_core::Command>,
+    /// index -> term of the entry first seen applied at that index
+    applied_terms: HashMap<u64, u64>,
     pub final_state_checks: u64,
     pub checkpoints: u64,
     /// node -> virtual time at which its current incarnation entered the Raft loop
@@ -147,6 +149,10 @@ pub struct Online {
     started_as_learner: BTreeSet<u32>,
     /// node -> (t, role it changed to)
     role_hist: HashMap<u32, Vec<(u64, i32)>>,
+    /// (t, kind) with kind 0 = vote request sent, 1 = answered (any answer), 2 = granted, 3 = round ended
+    vote_activity: Vec<(u64, u8)>,
+    /// crashed nodes whose old tasks may still emit hook events until they are aborted
+    zombies: BTreeSet<u32>,
     pub watch: super::watchmon::WatchMon,
 }
 
@@ -220,11 +226,14 @@ impl Online {
             reply_bound_ms: None,
             purge_seen: HashMap::new(),
             applied_cmds: BTreeMap::new(),
+            applied_terms: HashMap::new(),
             final_state_checks: 0,
             checkpoints: 0,
             loop_started: HashMap::new(),
             started_as_learner: BTreeSet::new(),
             role_hist: HashMap::new(),
+            vote_activity: Vec::new(),
+            zombies: BTreeSet::new(),
             watch: super::watchmon::WatchMon::default(),
         }
     }
@@ -263,6 +272,32 @@ impl Online {
     }
 
     pub fn on_event(&mut self, t: u64, ev: &Ev) {
+        // a crashed node is dead for the model from the instant of the crash; hook events of its
+        // not-yet-aborted tasks are not observations of the system
+        match ev {
+            Ev::Crash { node, .. } => {
+                self.zombies.insert(*node);
+            }
+            Ev::Start { node, .. } => {
+                self.zombies.remove(node);
+            }
+            Ev::RoleChange { node, .. }
+            | Ev::Term { node, .. }
+            | Ev::Vote { node, .. }
+            | Ev::VoteReset { node, .. }
+            | Ev::Commit { node, .. }
+            | Ev::ReadServed { node, .. }
+            | Ev::LeaderNotify { node, .. }
+            | Ev::Apply { node, .. }
+            | Ev::SnapshotInstall { node, .. }
+            | Ev::SnapshotGenerate { node, .. }
+            | Ev::Membership { node, .. }
+                if self.zombies.contains(node) =>
+            {
+                return;
+            }
+            _ => {}
+        }
         self.seq += 1;
         self.watch.on_event(t, ev);
         {
@@ -385,7 +420,9 @@ impl Online {
                 // processing the request (it answers with the pre-update value), so it may lag
                 // the node's current term without the term having decreased: not checked here.
                 let _ = reply_term;
+                self.vote_activity.push((t, 1));
                 if *granted {
+                    self.vote_activity.push((t, 2));
                     self.counters.vote_grants += 1;
                     self.record_grant(t, *voter, *voter_inc, *req_term, *candidate, "wire");
                     // learners never vote
@@ -397,6 +434,7 @@ impl Online {
                 }
             }
             Ev::VoteReq { from, term, .. } => {
+                self.vote_activity.push((t, 0));
                 if let Some((r, _)) = self.roles.get(from)
                     && *r == LEARNER
                 {
@@ -404,6 +442,7 @@ impl Online {
                 }
             }
             Ev::VoteOutcome { candidate, term, granted_by, peers } => {
+                self.vote_activity.push((t, 3));
                 self.vote_outcomes.insert((*candidate, *term), (granted_by.clone(), peers.clone()));
             }
             Ev::AeSend { from, term, contiguous, prev_index, first, n, to, id, .. } => {
@@ -488,8 +527,9 @@ impl Online {
                     }
                 }
             }
-            Ev::Apply { node, inc, index, cmd, ok, .. } => {
+            Ev::Apply { node, inc, index, cmd, ok, term } => {
                 self.counters.applies += 1;
+                self.applied_terms.entry(*index).or_insert(*term);
                 let key = (*node, *inc);
                 let h = cmd_hash(cmd);
                 // (a) entry covered by a snapshot this incarnation installed: applied on top of
@@ -584,6 +624,19 @@ impl Online {
                 self.counters.snapshots += 1;
                 let e = self.snapshot_content.entry((*last_index, *last_term)).or_insert(0);
                 *e = (*e).max(*sm_last_applied);
+                // C33: the recorded boundary becomes the purge boundary, whose term the leader
+                // sends as prev_log_term: it has to be the term of the entry at that index
+                if let Some(et) = self.applied_terms.get(last_index).cloned()
+                    && et != *last_term
+                    && !self.tainted.contains(&(*node, *inc))
+                {
+                    self.find(
+                        t,
+                        "C33",
+                        "snapshot-boundary-term-is-not-the-term-of-the-entry-at-the-boundary",
+                        json!({"node": node, "recorded_last_included": [last_index, last_term], "term_of_that_entry": et, "state_machine_last_applied_at_generation": sm_last_applied}),
+                    );
+                }
                 // C16: a snapshot's recorded boundary matches the state it contains
                 if *sm_last_applied != *last_index && !self.tainted.contains(&(*node, *inc)) {
                     self.find(
@@ -640,6 +693,17 @@ impl Online {
             }
             _ => {}
         }
+    }
+
+    /// (requests sent, answered, granted, rounds ended) since `t0`
+    pub fn vote_activity_since(&self, t0: u64) -> (u64, u64, u64, u64) {
+        let mut c = [0u64; 4];
+        for (t, k) in &self.vote_activity {
+            if *t >= t0 {
+                c[*k as usize] += 1;
+            }
+        }
+        (c[0], c[1], c[2], c[3])
     }
 
     fn record_grant(&mut self, t: u64, voter: u32, inc: u32, term: u64, candidate: u32, how: &str) {
